@@ -258,7 +258,7 @@ func (w *worker) runSched(c *schedCase, raw []byte) {
 		}
 		return "releases " + strings.Join(gs, " ")
 	}
-	try := func() (string, []string) {
+	try := func() (drifted string, stuck string, results []string) {
 		n := len(ps)
 		s := &gates{gmap: map[int]int{}, arrivals: make(chan arrival, 16), release: make([]chan struct{}, n)}
 		for i := range s.release {
@@ -273,27 +273,40 @@ func (w *worker) runSched(c *schedCase, raw []byte) {
 			select {
 			case <-s.arrivals:
 			case <-time.After(5 * time.Second):
-				return "goroutines did not reach their start gates", nil
+				return "", "goroutines did not reach their start gates", nil
 			}
 		}
 		res := make([]string, n)
 		finished := 0
-		cleanup := func() { // let everything run to completion so that no goroutine stays parked
+		note := func(a arrival) {
+			if a.done {
+				finished++
+				res[a.g] = a.res
+			}
+		}
+		// the real code left the protocol of Sched.tla: let everything run free; what remains to be judged is
+		// the property itself (every call returns, and returns what it returns alone)
+		cleanup := func() bool {
 			jsonpath.VerifHook = nil
 			for g := 0; g < n; g++ {
 				close(s.release[g])
 			}
-			deadline := time.After(3 * time.Second)
+			deadline := time.After(5 * time.Second)
 			for finished < n {
 				select {
 				case a := <-s.arrivals:
-					if a.done {
-						finished++
-					}
+					note(a)
 				case <-deadline:
-					return
+					return false
 				}
 			}
+			return true
+		}
+		drift := func(why string) (string, string, []string) {
+			if !cleanup() {
+				return "", why + "; and then " + fmt.Sprint(n-finished) + " goroutine(s) never returned", nil
+			}
+			return why, "", res
 		}
 		for si, st := range c.Trace {
 			s.release[st.G-1] <- struct{}{}
@@ -305,58 +318,55 @@ func (w *worker) runSched(c *schedCase, raw []byte) {
 			for len(want) > 0 {
 				select {
 				case a := <-s.arrivals:
-					if a.done {
-						finished++
-					}
+					note(a)
 					p, ok := want[a.g]
 					switch {
 					case !ok:
-						cleanup()
-						return fmt.Sprintf("step %d (release g%d): unexpected arrival of g%d at hook %d (done=%v): the protocol does not allow it here", si+1, st.G, a.g+1, a.point, a.done), nil
+						return drift(fmt.Sprintf("step %d (release g%d): unexpected arrival of g%d at hook %d (done=%v): the protocol does not allow it here", si+1, st.G, a.g+1, a.point, a.done))
 					case a.done && p != 0:
-						cleanup()
-						return fmt.Sprintf("step %d: g%d finished but hook %d was expected", si+1, a.g+1, p), nil
+						return drift(fmt.Sprintf("step %d: g%d finished but hook %d was expected", si+1, a.g+1, p))
 					case !a.done && a.point != p:
-						cleanup()
-						return fmt.Sprintf("step %d: g%d arrived at hook %d, expected %d", si+1, a.g+1, a.point, p), nil
-					}
-					if a.done {
-						res[a.g] = a.res
+						return drift(fmt.Sprintf("step %d: g%d arrived at hook %d, expected %d", si+1, a.g+1, a.point, p))
 					}
 					delete(want, a.g)
 				case <-deadline:
-					cleanup()
-					return fmt.Sprintf("step %d (release g%d): expected arrivals %v did not happen (deadlock or lost wake-up)", si+1, st.G, want), nil
+					return drift(fmt.Sprintf("step %d (release g%d): expected arrivals %v did not happen", si+1, st.G, want))
 				}
 			}
 		}
 		// nobody may arrive any more
 		select {
 		case a := <-s.arrivals:
-			if a.done {
-				finished++
-			}
-			cleanup()
-			return fmt.Sprintf("after the schedule: unexpected arrival of g%d at hook %d", a.g+1, a.point), nil
+			note(a)
+			return drift(fmt.Sprintf("after the schedule: unexpected arrival of g%d at hook %d", a.g+1, a.point))
 		default:
 		}
-		return "", res
+		return "", "", res
 	}
-	why, res := try()
-	if why != "" {
-		// re-run: a rejected schedule must reproduce in 2 of 3 runs to be reported
+	drifted, stuck, res := try()
+	if stuck != "" {
+		// a call that never returns: must reproduce in 2 of 3 runs to be reported
 		rep := 1
 		for i := 0; i < 2; i++ {
-			if w2, _ := try(); w2 != "" {
+			if _, s2, _ := try(); s2 != "" {
 				rep++
 			}
 		}
 		if rep >= 2 {
-			w.viol("C06", "schedule-rejected", fmt.Sprintf("program pair %d", c.Pair), fmt.Sprint(c.Seqs), desc()+": "+why, "sched", raw)
+			w.viol("C06", "call-never-returns", fmt.Sprintf("program pair %d", c.Pair), fmt.Sprint(c.Seqs), desc()+": "+stuck, "sched", raw)
 		} else {
-			w.infra("schedule rejection not reproduced: " + why)
+			w.infra("stuck schedule not reproduced: " + stuck)
 		}
 		return
+	}
+	if drifted != "" {
+		// The code does not follow the lock protocol of Sched.tla at this point (e.g. Parse is no longer serialised
+		// by one mutex).  That is a statement about the mechanism, not about C06: no verdict from the protocol; the
+		// results of the free run are still compared with the sequential ones below.
+		w.count("C06:schedules-not-forcible(mechanism differs from Sched.tla)", 1)
+		if len(w.res.Samples) < 3 {
+			w.res.Samples = append(w.res.Samples, "NOTE schedule not forcible: "+desc()+": "+drifted)
+		}
 	}
 	for g := range res {
 		if res[g] != schedSeqRes[c.Pair][g] {
@@ -364,7 +374,9 @@ func (w *worker) runSched(c *schedCase, raw []byte) {
 			return
 		}
 	}
-	w.count("C06:schedules-forced", 1)
+	if drifted == "" {
+		w.count("C06:schedules-forced", 1)
+	}
 	w.distinct(desc())
 }
 
